@@ -79,6 +79,8 @@ func parseScript(body []byte) (script, error) {
 
 // expectedC2 is the precedence model: parameter, header, Host (IDNA-ASCII),
 // TLS server name plus the listen port unless that is 443.
+var badIDNHosts = map[string]bool{"xn--0": true, "xn---": true, "www.xn--0.example:8443": true, "xn--0.example": true}
+
 func expectedC2(r C07Req, port string) (string, bool) {
 	switch {
 	case r.Param != "":
@@ -89,6 +91,8 @@ func expectedC2(r C07Req, port string) (string, bool) {
 		return r.Header, true
 	case r.IDN != "":
 		return r.IDNWant, true
+	case badIDNHosts[r.Host] && !r.HTTP10:
+		return "", false // a Host that cannot be converted: only an explicit c2 (above) helps
 	case r.Host != "" && !r.HTTP10:
 		return r.Host, true
 	case r.SNI != "":
@@ -201,6 +205,9 @@ func runC07(t testing.TB, c C07Case) (key, what string, classes map[string]int) 
 		}
 		if nsrc >= 2 {
 			classes["several-address-sources"]++
+		}
+		if badIDNHosts[r.Host] && !r.HTTP10 {
+			classes["explicit-c2-with-unconvertible-host"]++
 		}
 		if res.Status != 200 {
 			return "script-not-served", fmt.Sprintf("%s: status %d, body %q", desc, res.Status, clip(string(res.Body), 100)), classes
@@ -441,6 +448,9 @@ func genC07() *rapid.Generator[C07Case] {
 				p := rapid.SampledFrom(idnTable).Draw(t, "idn")
 				r.IDN, r.IDNWant = p[0], p[1]
 				r.Host = "ignored.example"
+			case 2:
+				// a Host header net/http accepts but IDNA conversion rejects
+				r.Host = rapid.SampledFrom([]string{"xn--0", "xn---", "www.xn--0.example:8443", "xn--0.example"}).Draw(t, "badhost")
 			default:
 				r.Host = addr("host")
 			}
